@@ -526,6 +526,16 @@ def step (j : JState) (line : String) : JState × String :=
               | _ => j2
             monEv j3 [.ended p.client st] none
           | "rollback", _ => monEv j1 [.ended p.client st] none
+          | "gc", [sp] =>
+            -- a GC pass that reports success has resolved every lock up to its safe point (C02 / C14)
+            match sp.toNat? with
+            | some sp =>
+              if okRes then
+                match (scanLock j1.store [] [] maxU64).find? fun (_, _, t) => t ≤ sp with
+                | some (k, _, t) => (j1, s!"FAIL C02 gc at safe point {sp} reported success but the lock of transaction {t} on {hexOrTilde k} is still there")
+                | none => (j1, "ok")
+              else (j1, "ok")
+            | none => (j1, "ok")
           | c, _ =>
             if c == "iter" || c == "riter" then
               match ownIterCheck j1 p.client c st p.args tail with
